@@ -42,7 +42,8 @@ def sp_eff_vis(eng, st, scope, def_vis):
     return V(INT, Ite(d.is_some(def_vis.t), d.opt_val(def_vis.t), own))
 
 
-SPEC_ENV = {"lower": sp_lower, "private_in": sp_private_in, "eff_vis": sp_eff_vis}
+from contracts import inherit
+SPEC_ENV = {"lower": sp_lower, "private_in": sp_private_in, "eff_vis": sp_eff_vis, **inherit.SPEC_ENV}
 AXIOMS = {}
 
 
@@ -65,10 +66,11 @@ def build(reg):
         loops={0: LoopSpec("for child in local_scope.get_children()", index="_k", invariants=[("trivial", "True")])},
         abstract_stmts={"from .function import Function": ()}, ghost={"constants": {"Function": 0}},
         short="find_in_scope.check_scope", nested_in=f"{UTIL}.find_in_scope"))
+    inherit.add(reg, "C05")
     return reg
 
 
-TARGETS = [f"{UTIL}.find_in_scope.check_scope"]
+TARGETS = [f"{UTIL}.find_in_scope.check_scope", f"{inherit.TYPE}._resolve_inherit_parent"]
 
 
 def structure_items(repo):
@@ -187,6 +189,11 @@ def extra(repo, reg, tier, seed):
                      "module, inherited components through %): definition lands on the expected declaration or nowhere")
     it.count = len(EXPECT)
     items.append(it)
+    w = inherit.native_search()
+    items.append(Item("C05/session/native_inheritance_orders", "refuted" if w else "bounded-ok", "native-run(bounded)", 0.0, mode="bounded",
+                      witness=w, confirmed=True if w else None, func=f"{inherit.TYPE}._resolve_inherit_parent",
+                      detail="bounded: a three-level EXTENDS chain over four files, all 24 orders of linking the files with the real "
+                             "parser and resolve_links: every type's members are its own plus its ancestors' minus the overridden"))
     from contracts import c05_gen
     w, n, ns = c05_gen.run(tier, seed)
     it = Item("C05/session/generated_program_oracle", "refuted" if w else "bounded-ok", "native-run(bounded)", 0.0, mode="bounded",
@@ -206,6 +213,8 @@ def replay(obligation, model, rep):
 
 
 def search(func, tier, seed, obligation=""):
+    if func.endswith("_resolve_inherit_parent"):
+        return inherit.native_search()
     w = definition_oracle()
     if w:
         return w
